@@ -14,11 +14,12 @@ import itertools
 import json
 
 from harness.core import VERIF, Ctx, clist, cnat, copt, cz, guarded
+from harness.props import maxflow_events as EV
 
 ID = "C08"
 ANCHORS = ["solvor/flow.py"]
 IMPORTS = "From SV Require Import C08.MaxFlow C08.MaxFlowSpec."
-MAX_NODES = 9
+MAX_NODES = 12
 
 
 # ---------------------------------------------------------------- generators
@@ -232,16 +233,24 @@ def pooled(case):
 
 
 def min_cut(case):
+    """capacity of a minimum source-sink cut by enumeration of ALL source-side subsets (<= 12 nodes: 1024 subsets)"""
     cap, nodes = pooled(case)
     s, t = case["source"], case["sink"]
+    assert len(nodes) <= 16, len(nodes)
     others = [n for n in nodes if n != s and n != t]
+    bit = {n: 1 << i for i, n in enumerate(others)}
+    bit[s], bit[t] = 1 << len(others), 0          # s always inside, t never
+    arcs = [(bit[u], bit[v], x) for (u, v), x in cap.items() if x and u != v]
+    sb = bit[s]
     best = None
-    for k in range(len(others) + 1):
-        for sub in itertools.combinations(others, k):
-            S = set(sub) | {s}
-            c = sum(x for (u, v), x in cap.items() if u in S and v not in S)
-            if best is None or c < best:
-                best = c
+    for m in range(1 << len(others)):
+        S = m | sb
+        c = 0
+        for bu, bv, x in arcs:
+            if bu & S and not bv & S:
+                c += x
+        if best is None or c < best:
+            best = c
     return best
 
 
@@ -315,43 +324,11 @@ def shrink(case, still_bad, budget=120):
     return cur
 
 
-# reference trace of the algorithm, used ONLY for the evidence histograms (was a reverse residual arc used?
-# would the pinned code - without `capacity[v][u] += 0` - have returned less?)
+# instrumented reference port (harness/props/maxflow_events.py): used for the evidence histograms and for the
+# event-directed search, never as an oracle; its agreement with the implementation is checked on every case
 def trace_ref(case, fixed=True):
-    cap, flow = {}, {}
-    for u, adj in case["graph"]:
-        for e in adj:
-            cap.setdefault(u, {})
-            cap[u][e[0]] = cap[u].get(e[0], 0) + e[1]
-            if fixed:
-                cap.setdefault(e[0], {}).setdefault(u, 0)
-    s, t = case["source"], case["sink"]
-    f = lambda a, b: flow.get((a, b), 0)  # noqa: E731
-    total, cancels, its = 0, 0, 0
-    while True:
-        vis, q, path = {s}, [(s, [s])], None
-        while q:
-            n, p = q.pop(0)
-            if n == t:
-                path = p
-                break
-            for nb in cap.get(n, {}):
-                if nb not in vis and cap[n][nb] - f(n, nb) + f(nb, n) > 0:
-                    vis.add(nb)
-                    q.append((nb, p + [nb]))
-        if not path or len(path) < 2:
-            return total, cancels, its
-        its += 1
-        d = min(cap.get(u, {}).get(v, 0) - f(u, v) + f(v, u) for u, v in zip(path, path[1:]))
-        for u, v in zip(path, path[1:]):
-            if f(v, u) > 0:
-                cancels += 1
-                r = min(d, f(v, u))
-                flow[(v, u)] = f(v, u) - r
-                flow[(u, v)] = f(u, v) + d - r
-            else:
-                flow[(u, v)] = f(u, v) + d
-        total += d
+    r = EV.ref_run(case, fixed)
+    return r["total"], r["cancels"], r["its"]
 
 
 # ---------------------------------------------------------------- Coq terms
@@ -443,16 +420,25 @@ def run(ctx: Ctx):
     ctx.rule = ("capacitated digraphs <= 9 nodes, integer capacities 0..4: layered networks s->L1->L2(->L3)->t (half of them unit "
                 "capacities), adversarial bipartite networks whose adjacency order makes BFS take the wrong partner first, random digraphs with parallel / anti-parallel arcs, self loops, arcs into the source / out of "
                 "the sink, unreachable parts, zero capacities, empty adjacency lists, str/int/mixed labels, shuffled insertion order; "
-                "non-trivial = maximum flow >= 1 reached with >= 2 augmentations; distinct = canonical JSON of the case. "
-                "Histogram reverse_arc_used counts cases where an augmentation cancelled flow (reference trace).")
+                "zig-zag gadgets (k routes re-routing one another through one middle arc), anti-parallel pairs with capacities 1..3 under a "
+                "larger bottleneck, plus an EVENT-DIRECTED search (generate + hill-climb by mutations, <= 12 nodes) for rare histories "
+                "e1 exhausted->restored->reused arc, e2 partial cancellation on an anti-parallel input pair, e3 e2 with the remainder "
+                "needed to respect the capacity, e4 a node pair crossed by >= 3 augmentations, e5 BFS ends after a reverse-only arc was used "
+                "(corpus/C08/e*_*.json replayed first, fresh search from ctx.rng every run); "
+                "non-trivial = maximum flow >= 1 reached with >= 2 augmentations or any event e1-e5; distinct = canonical JSON of the case. "
+                "Histogram `event` counts cases per event, reverse_arc_used cases where an augmentation cancelled flow (reference port).")
     ctx.proof_step(["C08"])
     ctx.notes.append("valid_input = source <> sink and capacities >= 0; max_flow(g, s, s) does not return (path_flow stays inf): "
                      "outside the quantifier, one such call is run with a 1 s limit and must correspond to the model's None")
     ctx.notes.append("the returned dictionary is compared as a finite map (Python dict equality); the order of its keys is not modelled")
-    ctx.notes.append("oracle: minimum cut by enumeration of all source-side subsets (<= 9 nodes)")
-    n_lay = ctx.budget(350, 6000)
-    n_adv = ctx.budget(350, 6000)
-    n_rnd = ctx.budget(300, 6000)
+    ctx.notes.append("oracle: minimum cut by enumeration of all source-side subsets (<= 12 nodes)")
+    ctx.notes.append("events e1-e5 are detected by an instrumented Python port of the algorithm (maxflow_events.ref_run); it only steers "
+                     "generation and fills histograms; histogram reference_port_agrees shows it reproduces the implementation's result")
+    n_lay = ctx.budget(300, 5000)
+    n_adv = ctx.budget(300, 5000)
+    n_rnd = ctx.budget(250, 5000)
+    n_gad = ctx.budget(150, 2500)          # per gadget family
+    n_search = ctx.budget(25000, 400000)   # reference runs spent on the event-directed search
 
     # open known findings (none at the time of writing): replay their structured witnesses first
     for f in ctx.open_findings():
@@ -468,6 +454,17 @@ def run(ctx: Ctx):
     cases += [gen_layered(ctx.rng) for _ in range(n_lay)]
     cases += [gen_adversarial(ctx.rng) for _ in range(n_adv)]
     cases += [gen_random(ctx.rng) for _ in range(n_rnd)]
+    n_gen = len(cases)
+    for fam in (EV.gen_zigzag, EV.gen_antiparallel):
+        k = 0
+        while k < n_gad:
+            c = fam(ctx.rng)
+            if EV.n_nodes(c) <= MAX_NODES:
+                cases.append(c)
+                k += 1
+    n_fam = len(cases)
+    seeds = [c for c in cases[:n_fixed] if EV.ref_run(c)["events"]]
+    cases += [c for c, _ in EV.event_search(ctx.rng, n_search, seeds=seeds)]
 
     corr, spec, metas, spec_metas = [], [], [], []
     for k, case in enumerate(cases):
@@ -478,7 +475,8 @@ def run(ctx: Ctx):
         ctx.evaluations += 1
         bad = oracle(case, out)
         cap, nodes = pooled(case)
-        kind = "fixed" if k < n_fixed else ("layered" if k < n_fixed + n_lay else ("adversarial" if k < n_fixed + n_lay + n_adv else "random"))
+        kind = ("fixed" if k < n_fixed else "layered" if k < n_fixed + n_lay else "adversarial" if k < n_fixed + n_lay + n_adv
+                else "random" if k < n_gen else "gadget" if k < n_fam else "event_search")
         ctx.count("kind", kind)
         ctx.count("nodes", len(nodes))
         ctx.count("arcs", min(20, sum(len(a) for _, a in case["graph"])))
@@ -491,12 +489,18 @@ def run(ctx: Ctx):
             obj, its = out[2], out[3]
             ctx.count("objective", obj if isinstance(obj, int) and obj < 8 else "8+")
             ctx.count("iterations", its if its < 6 else "6+")
-            tot, cancels, _ = trace_ref(case, True)
+            ref = EV.ref_run(case, True)
+            tot, cancels = ref["total"], ref["cancels"]
+            ctx.count("reference_port_agrees", (ref["flow"], tot, ref["its"]) == (out[1], obj, its))
             ctx.count("reverse_arc_used", cancels > 0)
+            for ev in sorted(ref["events"]):
+                ctx.count("event", ev)
+            if not ref["events"]:
+                ctx.count("event", "none")
             if cancels > 0:
                 ptot, _, _ = trace_ref(case, False)
                 ctx.count("pinned_code_would_return_less", ptot < tot)
-            if isinstance(obj, int) and obj >= 1 and its >= 2:
+            if (isinstance(obj, int) and obj >= 1 and its >= 2) or ref["events"]:
                 ctx.nontriv(canon(case))
             ctx.sample({"case": case, "solution": sorted((repr(k), v) for k, v in out[1].items()), "objective": obj, "iterations": its}, 3)
         else:
@@ -539,7 +543,9 @@ def run(ctx: Ctx):
                         if ctx.rng.random() < 0.3:
                             e[1] = _cap(ctx.rng)
             else:
-                case = ctx.rng.choice([gen_layered, gen_adversarial, gen_random])(ctx.rng)
+                case = ctx.rng.choice([gen_layered, gen_adversarial, gen_random, EV.gen_zigzag, EV.gen_antiparallel, EV.gen_layers])(ctx.rng)
+                if EV.n_nodes(case) > MAX_NODES:
+                    continue
             out, bad = judge(case)
             ctx.evaluations += 1
             if bad:
